@@ -38,6 +38,12 @@ def text_case(rng, B):
                 data = data[:-1] + fill + b"\n"
             else:
                 data = data + fill
+            # keep the message list in step with the bytes (the block-zero classification reads it)
+            last = msgs[-1]
+            if last.data.endswith(b"\n"):
+                last.data = last.data[:-1] + fill + b"\n"
+            else:
+                last.data = last.data + fill
     return data, pre, msgs, tn, kind
 
 
